@@ -1,14 +1,21 @@
 /-
   C18 model: giscanner/cachestore.py (`CacheStore.store`, `load`, `_cache_is_valid`,
-  `_remove_filename`, `_check_cache_version`, `_clean`) as a small-step transition
-  system: ONE atomic step per system call the Python code makes, any number of
-  processes, plus environment steps (source modification, time passing, crash).
+  `_remove_filename`, `_check_cache_version`, `_clean`) and the call site
+  `Transformer._parse_include` as a small-step transition system: ONE atomic step per system call
+  the Python code makes, any number of processes, plus environment steps (source modification,
+  source replacement, time passing, crash).
 
-  File system: the single cache entry name `sha1(path)` (`entry`), the stamp
-  `.cache-version` (`stamp`), temporary files (created by `tempfile.mkstemp`, i.e. in
-  TMPDIR, NOT in the cache directory: `tmps`), an inode table.  Content of an inode is
-  abstracted to (which source version's parse, which scanner version wrote it, how many
-  chunks of the pickle are on disk): `pickle.load` succeeds iff all chunks are there.
+  File system: the single cache entry name `sha1(path)` (`entry`), the stamp `.cache-version`
+  (`stamp`), the temporary files of `store` (`tempfile.mkstemp(dir=<cache directory>)`: they are
+  names IN the cache directory, `tmps`, where `_clean` of a version purge unlinks them too), the
+  temporary files of the stamp writer (TMPDIR, `vtmps`), an inode table.  Content of an inode is
+  abstracted to (which source version's parse, which scanner version wrote it, how many chunks of
+  the pickle are on disk): `pickle.load` succeeds iff all chunks are there.
+
+  An entry is published by `os.replace` (one atomic rename, no copy on any device layout) after
+  `os.utime` has given it the mtime the SOURCE had before it was read (`Proc.m0`, observed by the
+  call site at spawn time); `_cache_is_valid` and `load` accept an entry iff its mtime EQUALS the
+  source's current mtime.
 
   The comparisons and the swallowed errnos come from the generated `Gen/Cache.lean`,
   so the model follows the source when those change.  Import-free apart from the
@@ -56,22 +63,24 @@ inductive Op where
   | store | load | check
   deriving Repr, DecidableEq
 
+/-- a name in the cache directory as `os.listdir` reports it to a purge: the entry or a
+    temporary file (by inode id) -/
+abbrev Name := Option Nat
+
 /-- program counter + locals; each constructor names the NEXT system call -/
 inductive PC where
   | idle
-  -- store(filename, data)
+  -- Transformer._parse_include: (os.stat(filename) happened at spawn) parser.parse(filename)
+  | sParse                           -- the source is READ here
+  -- store(filename, data, source_mtime_ns)
   | sStatEntry                       -- _cache_is_valid: os.stat(store_filename)
   | sStatSrc (m : Nat)               -- _cache_is_valid: os.stat(filename)
-  | sMkstemp                         -- tempfile.mkstemp
+  | sMkstemp                         -- tempfile.mkstemp(dir=cache directory)
   | sWrite (i k : Nat)               -- pickle.dump: chunk k to the temp inode i
   | sClose (i : Nat)                 -- leaving `with os.fdopen(...)`
-  | sRename (i : Nat)                -- shutil.move(tmp, store_filename): rename (fails with EXDEV across devices)
-  -- cross-device fall-back of shutil.move = copy2 (copyfile + copystat) + unlink
-  | xOpen (i : Nat)                  -- copyfile: open(store_filename, 'wb') creates or TRUNCATES IN PLACE
-  | xWrite (i j k : Nat)             -- copyfile: chunk k of temp inode i to the opened inode j
-  | xClose (i j : Nat)
-  | xCopystat (i : Nat)              -- copystat: os.utime(store_filename) BY PATH, restores the temp file's mtime
-  | xUnlink (i : Nat)                -- os.unlink(tmp)
+  | sUtime (i : Nat)                 -- os.utime(tmp_filename, ns=(source_mtime_ns, ...)) BY PATH
+  | sRename (i : Nat)                -- os.replace(tmp_filename, store_filename)
+  | sUnlinkTmp (i : Nat)             -- handler of EACCES / ENOENT: _remove_filename(tmp_filename)
   -- load(filename)
   | lOpen                            -- open(store_filename, 'rb')
   | lFstat (i v0 : Nat)              -- os.fstat(fd.fileno())   [or os.stat(store_filename)]
@@ -81,7 +90,7 @@ inductive PC where
   -- CacheStore.__init__ → _check_cache_version (→ _clean)
   | cReadStamp                       -- open(version).read()
   | cListdir                         -- os.listdir(directory)
-  | cUnlink                          -- os.unlink(entry)
+  | cUnlink (todo : List Name)       -- os.unlink of the first listed name, the rest follows
   | cMkstemp | cWrite | cClose | cRename
   | done (r : Option Ret)
   | crashed
@@ -92,24 +101,27 @@ structure Proc where
   pc : PC
   /-- scanner version of this process (`_get_versionhash()`) -/
   sver : Nat
-  /-- store: id of the source version this process parsed -/
+  /-- store: id of the source version this process parsed (set by the `sParse` step) -/
   data : Nat
+  /-- the source's mtime observed when the operation started: for a store this is
+      `os.stat(filename).st_mtime_ns` of `_parse_include`, taken BEFORE the file is read -/
+  m0 : Nat
   deriving Repr, DecidableEq, Inhabited
 
 inductive Ev where
-  /-- process `p` starts an operation; for `store` this is the instant its parse of the
-      source was read -/
+  /-- process `p` starts an operation; for `store` this is the instant `_parse_include` stats
+      the source, its next step reads it -/
   | spawn (p : Nat) (op : Op) (sver : Nat)
   /-- process `p` performs its next system call -/
   | step (p : Nat)
   /-- process `p` is killed before its next system call -/
   | crash (p : Nat)
-  /-- the source file is replaced by a new version; `tick = false`: within the same
-      timestamp granule as the previous event -/
+  /-- the source file is replaced by a new version stamped with the current time; `tick = false`:
+      within the same timestamp granule as the previous event -/
   | modify (tick : Bool)
   /-- the source file is replaced by a new version that CARRIES the mtime `m` (it is not stamped
       with the current time): a file installed with its build time preserved (`cp -p`, `install -p`,
-      `meson install`, `tar x`, a distribution package).  Typically `m` is older than the clock. -/
+      `meson install`, `tar x`, a distribution package) -/
   | replace (m : Nat)
   /-- time passes -/
   | tick
@@ -125,14 +137,11 @@ structure State where
   nIno : Nat
   entry : Option Nat
   stamp : Option Nat
-  /-- temp files of `store` left in TMPDIR (inode ids) -/
+  /-- temporary files of `store` linked in the cache directory (inode ids, in creation order) -/
   tmps : List Nat
   /-- temp files of the stamp writer left in TMPDIR -/
   vtmps : Nat
   procs : Nat → Proc
-  /-- TMPDIR and the cache directory are on different file systems: `rename` of a temp file
-      into the cache directory fails with EXDEV and `shutil.move` copies instead -/
-  xdev : Bool
 
 def upd {α : Type} (f : Nat → α) (k : Nat) (v : α) : Nat → α := fun x => if x = k then v else f x
 
@@ -140,7 +149,7 @@ def State.setPc (s : State) (p : Nat) (pc : PC) : State :=
   { s with procs := upd s.procs p { s.procs p with pc := pc } }
 
 def firstPc : Op → PC
-  | .store => .sStatEntry
+  | .store => .sParse
   | .load => .lOpen
   | .check => .cReadStamp
 
@@ -151,10 +160,21 @@ def PC.running : PC → Bool
 /-- `pickle.load` succeeds iff the whole pickle is there -/
 def Inode.complete (n : Inode) : Bool := n.len == full
 
+/-- `os.unlink` of a listed name by a purge: a name that is gone is ENOENT, swallowed -/
+def unlinkName (s : State) : Name → State
+  | none => { s with entry := none }
+  | some i => { s with tmps := s.tmps.filter (· != i) }
+
+def nameExists (s : State) : Name → Bool
+  | none => s.entry.isSome
+  | some i => s.tmps.contains i
+
 /-- one system call of process `p` -/
 def stepProc (s : State) (p : Nat) : State :=
   let pr := s.procs p
   match pr.pc with
+  -- ---- the call site reads the source
+  | .sParse => { s with procs := upd s.procs p { pr with pc := .sStatEntry, data := s.ver } }
   -- ---- store
   | .sStatEntry =>
     match s.entry with
@@ -173,45 +193,25 @@ def stepProc (s : State) (p : Nat) : State :=
     { s with
       inodes := upd s.inodes i { s.inodes i with len := k + 1, mtime := s.clock }
       procs := upd s.procs p { pr with pc := if k + 1 = full then .sClose i else .sWrite i (k + 1) } }
-  | .sClose i => s.setPc p (.sRename i)
+  | .sClose i => s.setPc p (.sUtime i)
+  | .sUtime i =>
+    if s.tmps.contains i then
+      { s with
+        inodes := upd s.inodes i { s.inodes i with mtime := pr.m0 }
+        procs := upd s.procs p { pr with pc := .sRename i } }
+    else if utimeCatchesENOENT then s.setPc p (.sUnlinkTmp i) else s.setPc p .raised
   | .sRename i =>
-    if s.xdev then s.setPc p (.xOpen i) else
-    { s with
-      entry := some i
-      inodes := upd s.inodes i { s.inodes i with pub := true }
-      tmps := s.tmps.filter (· != i)
-      procs := upd s.procs p { pr with pc := .done none } }
-  -- ---- store, cross-device publish
-  | .xOpen i =>
-    let t := s.inodes i
-    match s.entry with
-    | some j =>
+    if s.tmps.contains i then
       { s with
-        inodes := upd s.inodes j { s.inodes j with data := t.data, sver := t.sver, len := 0, mtime := s.clock }
-        procs := upd s.procs p { pr with pc := .xWrite i j 0 } }
-    | none =>
-      let j := s.nIno
-      { s with
-        inodes := upd s.inodes j ⟨t.data, t.sver, 0, s.clock, p, true⟩
-        nIno := j + 1
-        entry := some j
-        procs := upd s.procs p { pr with pc := .xWrite i j 0 } }
-  | .xWrite i j k =>
-    { s with
-      inodes := upd s.inodes j { s.inodes j with len := k + 1, mtime := s.clock }
-      procs := upd s.procs p { pr with pc := if k + 1 = full then .xClose i j else .xWrite i j (k + 1) } }
-  | .xClose i _ => s.setPc p (.xCopystat i)
-  | .xCopystat i =>
-    match s.entry with
-    | none => if moveCatchesENOENT then s.setPc p (.xUnlink i) else s.setPc p .raised
-    | some j =>
-      { s with
-        inodes := upd s.inodes j { s.inodes j with mtime := (s.inodes i).mtime }
-        procs := upd s.procs p { pr with pc := .xUnlink i } }
-  | .xUnlink i =>
-    { s with
-      tmps := s.tmps.filter (· != i)
-      procs := upd s.procs p { pr with pc := .done none } }
+        entry := some i
+        inodes := upd s.inodes i { s.inodes i with pub := true }
+        tmps := s.tmps.filter (· != i)
+        procs := upd s.procs p { pr with pc := .done none } }
+    else if moveCatchesENOENT then s.setPc p (.sUnlinkTmp i) else s.setPc p .raised
+  | .sUnlinkTmp i =>
+    if s.tmps.contains i then
+      { s with tmps := s.tmps.filter (· != i), procs := upd s.procs p { pr with pc := .done none } }
+    else if unlinkCatchesENOENT then s.setPc p (.done none) else s.setPc p .raised
   -- ---- load
   | .lOpen =>
     match s.entry with
@@ -240,11 +240,18 @@ def stepProc (s : State) (p : Nat) : State :=
     match s.stamp with
     | none => if stampCatchesENOENT then s.setPc p .cListdir else s.setPc p .raised
     | some v => if v = pr.sver then s.setPc p (.done none) else s.setPc p .cListdir
-  | .cListdir => if s.entry.isSome then s.setPc p .cUnlink else s.setPc p .cMkstemp
-  | .cUnlink =>
-    match s.entry with
-    | none => if unlinkCatchesENOENT then s.setPc p .cMkstemp else s.setPc p .raised
-    | some _ => { s with entry := none, procs := upd s.procs p { pr with pc := .cMkstemp } }
+  | .cListdir =>
+    -- sorted listing: the entry (a hex digest) before the temporary files ("g-ir-scanner-cache-…")
+    match (if s.entry.isSome then [none] else []) ++ s.tmps.map some with
+    | [] => s.setPc p .cMkstemp
+    | todo => s.setPc p (.cUnlink todo)
+  | .cUnlink todo =>
+    match todo with
+    | [] => s.setPc p .cMkstemp
+    | n :: rest =>
+      let next : PC := if rest.isEmpty then .cMkstemp else .cUnlink rest
+      if nameExists s n then (unlinkName s n).setPc p next
+      else if unlinkCatchesENOENT then s.setPc p next else s.setPc p .raised
   | .cMkstemp => { s with vtmps := s.vtmps + 1, procs := upd s.procs p { pr with pc := .cWrite } }
   | .cWrite => s.setPc p .cClose
   | .cClose => s.setPc p .cRename
@@ -256,7 +263,7 @@ def stepProc (s : State) (p : Nat) : State :=
 def step (s : State) : Ev → State
   | .spawn p op sv =>
     if (s.procs p).pc = .idle then
-      { s with procs := upd s.procs p ⟨firstPc op, sv, s.ver⟩ }
+      { s with procs := upd s.procs p ⟨firstPc op, sv, s.ver, s.srcM s.ver⟩ }
     else s
   | .step p => stepProc s p
   | .crash p => if (s.procs p).pc.running then s.setPc p .crashed else s
@@ -268,13 +275,17 @@ def step (s : State) : Ev → State
 
 def run (s : State) (evs : List Ev) : State := evs.foldl step s
 
-/-- an initial state: source at version `ver` (all earlier versions stamped `srcMtime` too —
-    only the current one is observable), an optional entry inode 0, an optional stamp -/
-def mkInit (clock ver srcMtime : Nat) (entry : Option (Nat × Nat × Nat × Nat)) (stamp : Option Nat)
-    (xdev : Bool := false) : State where
+/-- an initial state: source at version `ver` with mtime `srcMtime`, an optional entry inode 0
+    `(data, sver, len, mtime)`, an optional stamp.  Earlier versions are not observable; they are
+    given the mtime of the initial entry (which was made from one of them) when there is one. -/
+def mkInit (clock ver srcMtime : Nat) (entry : Option (Nat × Nat × Nat × Nat)) (stamp : Option Nat) : State where
   clock := clock
   ver := ver
-  srcM := fun _ => srcMtime
+  srcM := fun v =>
+    if v = ver then srcMtime else
+    match entry with
+    | some (_, _, _, m) => m
+    | none => srcMtime
   inodes := fun _ =>
     match entry with
     | some (d, sv, l, m) => ⟨d, sv, l, m, 0, true⟩
@@ -284,60 +295,29 @@ def mkInit (clock ver srcMtime : Nat) (entry : Option (Nat × Nat × Nat × Nat)
   stamp := stamp
   tmps := []
   vtmps := 0
-  procs := fun _ => ⟨.idle, 0, 0⟩
-  xdev := xdev
+  procs := fun _ => ⟨.idle, 0, 0, 0⟩
 
 /-! ### the hypothesis of `C18_fresh_partial`, as a predicate on histories -/
 
-/-- the event respects "the source is not modified between the read that produced a parse
-    and the store of that parse" (a writing step of a store happens while the version it
-    parsed is still current) and "a modification gets a later timestamp than anything
-    written before it" -/
-def evOK (s : State) : Ev → Bool
-  | .step p =>
-    match (s.procs p).pc with
-    | .sWrite _ _ => (s.procs p).data == s.ver
-    | _ => true
-  | .modify t => t
-  | .replace _ => false
+/-- a new version of the source does not carry an mtime that an earlier version carried -/
+def newMtimeOK (s : State) (c : Nat) : Bool := (List.range (s.ver + 1)).all (fun v => s.srcM v != c)
+
+def evDistinct (s : State) : Ev → Bool
+  | .modify t => newMtimeOK s (if t then s.clock + 1 else s.clock)
+  | .replace m => newMtimeOK s m
   | _ => true
 
-def histOK (s : State) : List Ev → Bool
+/-- "source versions carry pairwise distinct mtimes": every version that becomes current during
+    the history has an mtime that no earlier version had -/
+def histDistinctMtimes (s : State) : List Ev → Bool
   | [] => true
-  | e :: es => evOK s e && histOK (step s e) es
-
-/-- only the first half: no modification between parse and store -/
-def evNoModDuringStore (s : State) : Ev → Bool
-  | .step p =>
-    match (s.procs p).pc with
-    | .sWrite _ _ => (s.procs p).data == s.ver
-    | _ => true
-  | _ => true
-
-def histNoModDuringStore (s : State) : List Ev → Bool
-  | [] => true
-  | e :: es => evNoModDuringStore s e && histNoModDuringStore (step s e) es
-
-/-- only the second half: every modification is stamped with the time at which it happens and
-    ticks the clock -/
-def histFineClock : List Ev → Bool
-  | [] => true
-  | .modify t :: es => t && histFineClock es
-  | .replace _ :: _ => false
-  | _ :: es => histFineClock es
-
-/-- weaker: every modification that is stamped with the current time ticks the clock; files
-    installed with a preserved (older) mtime are allowed -/
-def histTicks : List Ev → Bool
-  | [] => true
-  | .modify t :: es => t && histTicks es
-  | _ :: es => histTicks es
+  | e :: es => evDistinct s e && histDistinctMtimes (step s e) es
 
 /-! ### the hypothesis of `C18_version_purge` -/
 
 def PC.isStore : PC → Bool
-  | .sStatEntry | .sStatSrc _ | .sMkstemp | .sWrite _ _ | .sClose _ | .sRename _ => true
-  | .xOpen _ | .xWrite _ _ _ | .xClose _ _ | .xCopystat _ | .xUnlink _ => true
+  | .sParse | .sStatEntry | .sStatSrc _ | .sMkstemp | .sWrite _ _ | .sClose _ | .sUtime _ | .sRename _
+  | .sUnlinkTmp _ => true
   | _ => false
 
 /-- every step of a store in the history is by a process of scanner version `V` -/
@@ -352,13 +332,13 @@ def onlyStoresOf (V : Nat) (s : State) : List Ev → Bool
 
 def PC.label : PC → String
   | .idle => "idle"
+  | .sParse => "parse"
   | .sStatEntry => "stat_entry" | .sStatSrc _ => "stat_src" | .sMkstemp => "mkstemp"
-  | .sWrite _ _ => "write" | .sClose _ => "close" | .sRename _ => "rename"
-  | .xOpen _ => "open_w" | .xWrite _ _ _ => "write" | .xClose _ _ => "close"
-  | .xCopystat _ => "copystat" | .xUnlink _ => "unlink"
+  | .sWrite _ _ => "write" | .sClose _ => "close" | .sUtime _ => "utime" | .sRename _ => "rename"
+  | .sUnlinkTmp _ => "unlink"
   | .lOpen => "open_entry" | .lFstat _ _ => if loadByFd then "fstat" else "stat_entry"
   | .lStatSrc _ _ _ => "stat_src" | .lRead _ _ _ _ => "read" | .lUnlink => "unlink"
-  | .cReadStamp => "read_stamp" | .cListdir => "listdir" | .cUnlink => "unlink"
+  | .cReadStamp => "read_stamp" | .cListdir => "listdir" | .cUnlink _ => "unlink"
   | .cMkstemp => "mkstemp" | .cWrite => "write" | .cClose => "close" | .cRename => "rename"
   | .done _ => "done" | .crashed => "crashed" | .raised => "raised"
 
